@@ -241,6 +241,23 @@ theorem check_batch_size_post (len : Nat) (b r : Int) (num den : Nat)
         injection h with h; subst h
         left; exact ⟨rfl, hc⟩
 
+/-- the guarantee the training loop relies on (batch normalisation needs two samples): an accepted batch size never
+leaves a final batch of exactly one sample — for every length, requested batch size and fraction.  (False before the
+`fix:` of F57: `check_batch_size(21 samples, 10)` returned 10, final batch 1, and the importance sampler's flow
+collapsed so that `ImportanceFlowProposal.draw` never returned.) -/
+theorem check_batch_size_final_ne_one (len : Nat) (b r : Int) (num den : Nat)
+    (h : checkBatchSize len b num den = .ok r) : Int.fmod len r ≠ 1 := by
+  have hm : (2 : Int) ≤ minBatch num den b := by unfold minBatch; omega
+  rcases check_batch_size_post len b r num den h with ⟨rfl, hc⟩ | ⟨_, _, h0 | h1 | h2⟩
+  · intro h1
+    apply hc
+    omega
+  · omega
+  · omega
+  · omega
+
+example : (checkBatchSize 21 10 1 10).toOption = some 9 ∧ Int.fmod (21 : Nat) 9 = 3 := by decide +kernel
+
 /-- applied: batch size 1000 on 1005 points is lowered to 905 (final batch of exactly min_batch_size = 100 points) -/
 example :
     ((905 : Int) = 1000 ∧ ¬ (Int.fmod (1005 : Nat) 1000 ≠ 0 ∧ Int.fmod (1005 : Nat) 1000 < minBatch 1 10 1000)) ∨
